@@ -146,7 +146,8 @@ class Ext:
                a Boolean local holding the outcome of an isinstance test; used by the monadic backend pygal_m.py)
       raise_   Gallina text of "an exception left the function" for the declared return type
       binop    {(ast operator name, left kind, right kind): (template with two %s, result Ty)}     [srcloop]
-      expr     f(fn, node, env) -> (g, Ty) | None     expression nodes the core does not know (consulted last)   [srcloop]"""
+      expr     f(fn, node, env) -> (g, Ty) | None     expression nodes the core does not know (consulted last)   [srcloop]
+      is_none  f(fn, path, g, t, env, k_none, k_some) -> text | None     [srcgate] `p is None` / `p is not None` tests"""
 
     def __init__(self, **kw):
         self.calls, self.methods, self.attrs, self.compare, self.truthy = {}, {}, {}, {}, {}
@@ -166,6 +167,12 @@ def tr_expr(fn, node, env):
     p = path_of(node)
     if p is not None and p in env:
         return env[p]
+    # [srcgate] unit hook for expression forms outside the built-in subset (f-strings as opaque text, ...): Ext.expr
+    hook = getattr(fn.ext, "expr", None)
+    if hook is not None:
+        r = hook(fn, node, env)
+        if r is not None:
+            return r
     if isinstance(node, ast.Constant):
         v = node.value
         if v is None:
@@ -403,6 +410,12 @@ def tr_test(fn, node, env, kt, kf):
                     g, w, k_none(narrow(env, bp, w, NDT)), a, k_some(narrow(env, bp, a, ADT)))
             _bad(".tzinfo of %r" % t, node)
         g, t = tr_expr(fn, left, env)
+        # [srcgate] unit hook: `is None` on a value of a unit-specific type (an inductive with a None constructor)
+        hook = getattr(fn.ext, "is_none", None)
+        if hook is not None:
+            r = hook(fn, p, g, t, env, k_none, k_some)
+            if r is not None:
+                return r
         if t == NONE:
             return k_none(env)
         if t.kind == "opt":
